@@ -272,6 +272,15 @@ fn main() {
             kt.push((k, n, g, t));
         }
     }
+    // long streams (n/k in the hundreds): a subset of marked positions (old, switch, middle, recent)
+    let long_jobs: Vec<(usize, usize, usize)> = if thorough { vec![(1, 1500, 256), (2, 1600, 256), (4, 1600, 256)] } else { vec![(1, 900, 256), (2, 700, 256)] };
+    let mut long_cols: Vec<(usize, usize, usize, usize)> = vec![];
+    for &(k, n, g) in &long_jobs {
+        for t in [0, k, 4 * k - 1, 4 * k, 4 * k + 1, n / 3, n / 2, 3 * n / 4, n - n / 8, n - 40, n - 2, n - 1] {
+            long_cols.push((k, n, g, t));
+        }
+    }
+    kt.extend(long_cols.iter().copied());
     // heaviest columns first
     kt.sort_by_key(|&(k, n, _, _)| std::cmp::Reverse(k * n));
     let cols = par_map(&kt, n_threads(), |&(k, n, g, t)| run_kt(k, n, g, t));
@@ -280,7 +289,7 @@ fn main() {
         let (mut leaf, mut lumped, mut trans, mut classes) = (0u64, 0u64, 0u64, 0u64);
         let mut minw = 1.0f64;
         let mut errs = vec![];
-        for c in cols.iter().filter(|c| c.k == k) {
+        for c in cols.iter().filter(|c| c.k == k && c.p.len() == n_max + 1) {
             for n in 0..=n_max {
                 p[n][c.t] = c.p[n];
             }
@@ -306,6 +315,46 @@ fn main() {
             "worst_relative_deviation_per_n": o.table.iter().map(|(n, r, t)| json!([n, (r * 1e4).round() / 1e4, t])).collect::<Vec<_>>()}));
         for v in o.viols {
             run.violation(v);
+        }
+    }
+    for &(k, n_max, _g) in &long_jobs {
+        let mut worst = (0.0f64, 0usize, 0usize);
+        let mut worst_neg = (0.0f64, 0usize, 0usize);
+        let mut leaf = 0u64;
+        for c in cols.iter().filter(|c| c.k == k && c.p.len() == n_max + 1) {
+            leaf += c.leaf_runs;
+            if let Some((sig, msg)) = &c.err {
+                run.violation(Viol { property: "C05".into(), signature: sig.clone(), message: msg.clone(), replay: json!({"k": k}) });
+                continue;
+            }
+            for n in (c.t + 1).max(k)..=n_max {
+                let want = k as f64 / n as f64;
+                let rel = (c.p[n] - want).abs() / want;
+                if n <= 4 * k + 1 {
+                    if (c.p[n] - want).abs() > 1e-7 {
+                        run.violation(Viol { property: "C05".into(), signature: format!("reservoir(k={}) not uniform at n <= 4k+1", k), message: format!("long-stream run: n = {}: position {} held with probability {:.6} instead of {:.6}", n, c.t, c.p[n], want), replay: json!({"k": k, "n": n, "position": c.t}) });
+                    }
+                } else {
+                    let signed = (c.p[n] - want) / want;
+                    if signed > worst.0 {
+                        worst = (signed, n, c.t);
+                    }
+                    if signed < worst_neg.0 {
+                        worst_neg = (signed, n, c.t);
+                    }
+                }
+            }
+        }
+        run.ev.add_u64("traces_validated_against_impl", leaf);
+        run.ev.push("long_streams", json!({"k": k, "n_max": n_max, "marked_positions": 12, "worst_over_representation": worst.0, "at(n,position)": [worst.1, worst.2], "worst_under_representation": worst_neg.0, "under_at(n,position)": [worst_neg.1, worst_neg.2], "tolerance_over_representation": 1.0 / k as f64 + 0.25}));
+        // At large n/k the documented approximation under-represents OLD positions without bound
+        // (geometric gaps with a frozen p have exponential tails, the exact process polynomial ones:
+        // measured -100 % for k = 1 at n = 169, -90 % for k = 2 at n = 700) - that is the inherent
+        // bias the property tolerates, so only OVER-representation is judged here: it stays of
+        // order 1/k for the documented algorithm (measured below), while a truncated or shortened
+        // gap multiplies the inclusion probability of recent positions.
+        if worst.0 > 1.0 / k as f64 + 0.25 {
+            run.violation(Viol { property: "C05".into(), signature: format!("reservoir(k={}) long-stream bias", k), message: format!("k = {}, n = {}: position {} is held with relative deviation {:+.2} from k/n (tolerance {:.2})", k, worst.1, worst.2, worst.0, 1.0 / k as f64 + 0.25), replay: json!({"k": k, "n": worst.1, "position": worst.2, "relative_deviation": worst.0}) });
         }
     }
     run.ev.set("exhaustive", json!(true));
